@@ -177,6 +177,17 @@ func (f *FileInfo) IsUpdatable() bool {
 	return f.IsFile() || f.IsInMemoryTable()
 }
 
+// IsPartOfFile reports whether the view holds only what a JSON query selected from the file.
+// Such a table cannot be written back: the encoders write the view as the whole document,
+// and everything in the file that the query did not select would be dropped.
+func (f *FileInfo) IsPartOfFile() bool {
+	switch f.Format {
+	case option.JSON, option.JSONL:
+		return 0 < len(f.JsonQuery)
+	}
+	return false
+}
+
 func (f *FileInfo) SetDelimiter(s string) error {
 	delimiter, err := option.ParseDelimiter(s)
 	if err != nil {
